@@ -262,6 +262,14 @@ fn escape_js_string(s: &str) -> String {
         .replace('\t', "\\t")
 }
 
+/// Verification hooks: re-export private helpers to the out-of-tree native replay harness
+#[cfg(feature = "verif-hooks")]
+pub mod verif_hooks {
+    pub fn escape_js_string(s: &str) -> String {
+        super::escape_js_string(s)
+    }
+}
+
 #[cfg(test)]
 mod tests {
     use super::*;
